@@ -22,7 +22,8 @@ import (
 
 var c04Queries = []string{
 	`{ x1 x2 x3 }`,
-	`{ leafy { s i f b id e st sNN iNN li liNN le } x1 }`,
+	`{ leafy { s i f b id e st sNN iNN li liNN le lst } x1 }`,
+	`{ leafy { le lst sub { le } } a { items(n:2) { kind } } x2 }`,
 	`{ leafyNN { s sNN } x1 }`,
 	`{ leafy { sub { s sNN sub { iNN s } } s } x2 }`,
 	`{ deep { v vNN d { v vNN } dNN { v vNN } } x1 }`,
@@ -58,11 +59,12 @@ var c04Queries = []string{
 }
 
 type C04Scn struct {
-	Query  string            `json:"query"`
-	Faults map[string]string `json:"faults"`
-	Entry  string            `json:"entry"` // do | plan
-	Order  uint32            `json:"order"`
-	Salt   uint64            `json:"salt"`
+	Query    string            `json:"query"`
+	Faults   map[string]string `json:"faults"`
+	Entry    string            `json:"entry"`               // do | plan
+	AllThunk bool              `json:"all_thunk,omitempty"` // every resolver defers its value
+	Order    uint32            `json:"order"`
+	Salt     uint64            `json:"salt"`
 }
 
 type c04 struct{}
@@ -73,13 +75,14 @@ func (c04) ID() string { return "C04" }
 
 // fault kinds applicable per position class
 var (
-	c04Any     = []string{FErr, FValErr, FPanicErr, FPanicStr, FPanicInt, FNil, FTypedNil, FThunk, FThunkErr, FThunkPanic, FThunkNil, FThunkBad}
-	c04Leaf    = []string{FWrongKind, FNaN, FBigInt, FBadEnum}
-	c04List    = []string{FWrongKind, FNotIter}
-	c04Abs     = []string{FRTNil, FRTWrong, FRTPanic, FWrongKind}
-	c04IsType  = []string{FITFalse, FITPanic}
-	c04Stamp   = []string{FSerNil, FSerPanic}
-	deferredFK = map[string]bool{FThunkErr: true, FThunkPanic: true, FThunkNil: true, FThunkBad: true}
+	c04Any      = []string{FErr, FValErr, FPanicErr, FPanicStr, FPanicInt, FNil, FTypedNil, FThunk, FThunkErr, FThunkPanic, FThunkNil, FThunkBad}
+	c04Leaf     = []string{FWrongKind, FNaN, FBigInt, FBadEnum}
+	c04List     = []string{FWrongKind, FNotIter, FElemThunk}
+	c04LeafList = []string{FElemPanic}
+	c04Abs      = []string{FRTNil, FRTWrong, FRTPanic, FWrongKind}
+	c04IsType   = []string{FITFalse, FITPanic}
+	c04Stamp    = []string{FSerNil, FSerPanic}
+	deferredFK  = map[string]bool{FThunkErr: true, FThunkPanic: true, FThunkNil: true, FThunkBad: true}
 )
 
 type c04Pos struct {
@@ -144,6 +147,9 @@ func c04Analyse(q string) *c04Info {
 		switch {
 		case isListType(t):
 			kinds = append(kinds, c04List...)
+			if et := elemType(t); (named == "Kind" || named == "Stamp") && !isListType(et) && !strings.HasSuffix(et, "!") {
+				kinds = append(kinds, c04LeafList...)
+			}
 		case c04LeafNames[named]:
 			if nullable {
 				kinds = append(kinds, c04Leaf...)
@@ -196,6 +202,8 @@ func (p c04) Gen(seed uint64, enum int, tier string) json.RawMessage {
 				if enum < len(ks) {
 					s.Query = q
 					s.Faults[c04FaultKey(ks[enum], pos.Path)] = ks[enum]
+					// deferred list elements are interesting with deferred values beneath them
+					s.AllThunk = ks[enum] == FElemThunk
 					s.Order = uint32(enum % 4)
 					s.Salt = uint64(enum)
 					return mustJSON(s)
@@ -218,6 +226,7 @@ func (p c04) Gen(seed uint64, enum int, tier string) json.RawMessage {
 		k := ks[r.Intn(len(ks))]
 		s.Faults[c04FaultKey(k, pos.Path)] = k
 	}
+	s.AllThunk = r.Chance(10)
 	// sometimes a background of successful thunks under the faults
 	if r.Chance(25) {
 		for _, pos := range ci.Positions {
@@ -504,7 +513,7 @@ func (c04) Run(t TestingT, scn json.RawMessage, tape *Tape) *Outcome {
 	w := NewWorld("A")
 	verifmo.Set(sc.Order, sc.Salt)
 	defer verifmo.Set(verifmo.Sorted, 0)
-	rc := &ReqCtx{Task: "c1", W: w, Faults: sc.Faults, RootTok: Tok{T: ci.Root}}
+	rc := &ReqCtx{Task: "c1", W: w, Faults: sc.Faults, AllThunk: sc.AllThunk, RootTok: Tok{T: ci.Root}}
 	ctx := WithReq(context.Background(), rc)
 	var res *graphql.Result
 	var escaped interface{}
@@ -593,6 +602,11 @@ func (c04) Run(t TestingT, scn json.RawMessage, tape *Tape) *Outcome {
 				want, _ = setAt(want, path, c04Wild+named)
 				nonTrivial = true
 			}
+		case FElemPanic:
+			path = path + ".1"
+			if _, _, ok := getAt(ci.Baseline, pathToJSON(path)); ok {
+				hard = true
+			}
 		case FNaN, FBigInt, FBadEnum:
 			if c04LeafNames[named] && !isListType(typ) {
 				want, _ = setAt(want, path, c04Wild+named)
@@ -633,8 +647,18 @@ func (c04) Run(t TestingT, scn json.RawMessage, tape *Tape) *Outcome {
 			var thunks []string
 			for _, fa := range firedAt {
 				kind, path, _ := strings.Cut(fa, "@")
-				if kind == FThunk || deferredFK[kind] {
+				if kind == FThunk || deferredFK[kind] || kind == FElemThunk {
 					thunks = append(thunks, path)
+				}
+				if kind == FElemThunk {
+					// every element position of that list was deferred
+					if l, _, ok := getAt(ci.Baseline, pathToJSON(path)); ok {
+						if ll, isList := l.([]interface{}); isList {
+							for i := range ll {
+								thunks = append(thunks, path+"."+strconv.Itoa(i))
+							}
+						}
+					}
 				}
 			}
 			for _, f := range fails {
